@@ -264,6 +264,33 @@ pub fn gen_chain_scoped(c: &mut Choices) -> ScopedWs {
             sw.occs.push(Occ { file: *fi, range: *r, text: f.clone(), role: if k == di { Role::Def } else { Role::Use }, expected: Some(d), tier: OccTier::Core, shadow_depth: 0, what: "record field by its type" });
         }
     }
+    // labels that several variants of a type carry without being common fields (`size`: `Dot` has
+    // none; `value`: Int in one variant, String in the other): each variant's field is a symbol of
+    // its own; an occurrence belongs to the variant whose constructor it is written under
+    for (ctor, label) in [("Circle", "size"), ("Square", "size"), ("Number", "value"), ("Word", "value")] {
+        let needle = format!("{}({}:", ctor, label);
+        let mut all: Vec<(usize, (usize, usize))> = vec![];
+        for (fi, file) in sw.ws.files.iter().enumerate() {
+            if file.module.is_none() {
+                continue;
+            }
+            let mut from = 0;
+            while let Some(k) = file.text[from..].find(&needle) {
+                let st = from + k + ctor.len() + 1;
+                all.push((fi, (st, st + label.len())));
+                from = st;
+            }
+        }
+        if all.is_empty() {
+            continue;
+        }
+        let (dfile, drange) = all[0];
+        sw.decls.push(Decl { kind: DK::Field, file: dfile, name: label.to_string(), name_range: drange, focus_max: drange, public: true });
+        let d = sw.decls.len() - 1;
+        for (k, (fi, r)) in all.iter().enumerate() {
+            sw.occs.push(Occ { file: *fi, range: *r, text: label.to_string(), role: if k == 0 { Role::Def } else { Role::Use }, expected: Some(d), tier: OccTier::Core, shadow_depth: 0, what: "label of one variant (not a common field)" });
+        }
+    }
     for (module, f) in &fns {
         let Some(dfile) = sw.ws.files.iter().position(|x| x.module.as_deref() == Some(module.as_str())) else { continue };
         let decl_at = word_occurrences(&sw.ws.files[dfile].text, f, &|_, n| n == b'(').into_iter().find(|r| sw.ws.files[dfile].text[..r.0].trim_end().ends_with("fn"));
@@ -304,7 +331,7 @@ fn gen_chain_inner(c: &mut Choices) -> (Workspace, Vec<String>, Vec<(String, Str
     push(
         &mut ws,
         "person",
-        format!("pub type {ty} {{\n  {ctor}({f1}: String, {f2}: Int)\n}}\n\npub fn new(n) {{\n  {ctor}({f1}: n, {f2}: 1)\n}}\n\npub fn first(p: {ty}) {{\n  p.{f1}\n}}\n\npub fn alpha(n) {{\n  case n {{\n    0 -> new(\"a\")\n    _ -> beta(n - 1)\n  }}\n}}\n\npub fn beta(n) {{\n  {ctor}({f1}: alpha(n).{f1}, {f2}: n)\n}}\n\npub type Names =\n  List({ty})\n\npub type Same =\n  {ty}\n"),
+        format!("pub type {ty} {{\n  {ctor}({f1}: String, {f2}: Int)\n}}\n\npub fn new(n) {{\n  {ctor}({f1}: n, {f2}: 1)\n}}\n\npub fn first(p: {ty}) {{\n  p.{f1}\n}}\n\npub fn alpha(n) {{\n  case n {{\n    0 -> new(\"a\")\n    _ -> beta(n - 1)\n  }}\n}}\n\npub fn beta(n) {{\n  {ctor}({f1}: alpha(n).{f1}, {f2}: n)\n}}\n\npub type Names =\n  List({ty})\n\npub type Same =\n  {ty}\n\npub type Shape {{\n  Circle(size: Int)\n  Square(size: Int)\n  Dot\n}}\n\npub type Val {{\n  Number(value: Int)\n  Word(value: String)\n}}\n\npub fn area(zs: Shape, zv: Val) {{\n  let zc = Circle(size: 1)\n  let zq = Square(size: 2)\n  let zw = Word(value: \"w\")\n  case zs, zv {{\n    Circle(size: za1), Number(value: zn1) -> za1 + zn1\n    Square(size: za2), Word(value: _) -> za2\n    _, _ -> 0\n  }}\n}}\n"),
     );
     let mut prev = "person".to_string();
     let mut prev_fn = "new".to_string();
